@@ -83,6 +83,13 @@ func runC12(c *kit.Ctx) {
 			for _, cons := range c12SplitConsumers(c, f) {
 				nsplit++
 				c12RunBounds(c, r3, cons, "subject segment")
+				// a helper that hands (a sub-slice of) the split result to its
+				// callers: every call site is a consumer too
+				if cons.x != nil {
+					if pos := c12ReturnedSlicePos(cons); pos >= 0 {
+						nsplit += c12RunDerived(c, r3, cons, pos)
+					}
+				}
 			}
 		}
 	}
@@ -1026,4 +1033,233 @@ func c12NilRule(c *kit.Ctx, r *kit.Rule) {
 			}
 		}
 	}
+}
+
+// ---------------------------------------------------------------------------
+// R3: split results returned by a helper
+
+// c12ReturnedSlicePos returns the result position in which the consumer's
+// function returns the split result or a slice expression of it (directly or
+// through a single-definition local), or -1.
+func c12ReturnedSlicePos(cons *c12Consumer) int {
+	f := cons.f
+	info := f.Info()
+	pos := -1
+	ast.Inspect(f.Body, func(x ast.Node) bool {
+		switch y := x.(type) {
+		case *ast.FuncLit:
+			return false
+		case *ast.ReturnStmt:
+			for i, r := range y.Results {
+				if c12IsSliceOf(f, info, r, cons.x) && pos < 0 {
+					pos = i
+				}
+			}
+		}
+		return true
+	})
+	return pos
+}
+
+func c12IsSliceOf(f *kit.Func, info *types.Info, e ast.Expr, x types.Object) bool {
+	e = ast.Unparen(e)
+	if se, ok := e.(*ast.SliceExpr); ok {
+		return kit.ObjOf(info, se.X) == x
+	}
+	if id, ok := e.(*ast.Ident); ok {
+		o := kit.ObjOf(info, id)
+		if o == x {
+			return true
+		}
+		if o != nil {
+			if def := c12SingleDef(f, o); def != nil && def != e {
+				if se, ok := ast.Unparen(def).(*ast.SliceExpr); ok {
+					return kit.ObjOf(info, se.X) == x
+				}
+			}
+		}
+	}
+	return false
+}
+
+// c12RunDerived checks every call site of the helper: the helper is analysed
+// with the call's constant integer arguments bound to its parameters, the
+// lengths of the returned slice on its nil-error and error exits are computed,
+// and the caller's indices into the returned slice are decided against them.
+// It returns the number of call sites.
+func c12RunDerived(c *kit.Ctx, r *kit.Rule, cons *c12Consumer, pos int) int {
+	h := cons.f
+	hsig := h.Signature()
+	if h.Decl == nil || hsig == nil {
+		return 0
+	}
+	nres := hsig.Results().Len()
+	hasErr := nres > 1 && types.Identical(hsig.Results().At(nres-1).Type(), types.Universe.Lookup("error").Type())
+	const obl = "the index into the slice returned by the subject-splitting helper is within its length on every path"
+	n := 0
+	for _, rel := range c12Rels(c) {
+		for _, f := range c.P.Funcs(rel) {
+			if f.Body == nil {
+				continue
+			}
+			for _, call := range f.AllCalls(false) {
+				if f.CalleeFunc(call) != h {
+					continue
+				}
+				n++
+				c.Analysed(f, h)
+				info := f.Info()
+				role := "subject segment via " + h.Name
+				fail := func(msg string, a ...any) {
+					r.Ob(f, call, role+" (call)", obl).Undecided(msg, a...)
+				}
+				// bind constant integer arguments
+				init := kit.NewS()
+				hp := h.Params()
+				var bound []string
+				if !hsig.Variadic() && len(hp) == len(call.Args) {
+					for i, p := range hp {
+						if b, ok := p.Type().Underlying().(*types.Basic); ok && b.Info()&types.IsInteger != 0 {
+							if k, ok := kit.ConstInt(info, call.Args[i]); ok {
+								init = init.Set("n:"+kit.VarID(p), fmt.Sprintf("c:%d", k))
+								bound = append(bound, fmt.Sprintf("%s=%d", p.Name(), k))
+							}
+						}
+					}
+				}
+				lh := &kit.LenFlow{F: h, X: cons.x, Def: cons.def, MinLen: cons.minLen, Src: cons.src, Init: init}
+				lh.Run()
+				if lh.Problem != "" || lh.Result == nil || lh.Result.Overflow {
+					fail("helper %s cannot be summarised: %s", h.Name, lh.Problem)
+					continue
+				}
+				domOK, domErr := "", ""
+				exact := true
+				var off int64
+				offSet, offRel := false, true
+				why := ""
+				for _, e := range lh.Result.Exits {
+					if e.Return == nil {
+						continue // panic / no-return call
+					}
+					if len(e.Return.Results) != nres {
+						exact, why = false, "return with implicit results"
+						continue
+					}
+					set, o2, rel, ex, ok := lh.ResultLen(e.Return.Results[pos], e.State)
+					if !ok {
+						// is this exit feasible at all?
+						if _, _, _, reach := lh.ValueSet(e.State); reach {
+							exact, why = false, fmt.Sprintf("`%s` returns something else than a slice of the split result", h.Str(e.Return))
+						}
+						continue
+					}
+					if !ex {
+						exact, why = false, "a condition of the helper that depends on the subject length is not interpreted for this call"
+					}
+					kind := "ok"
+					if hasErr {
+						last := ast.Unparen(e.Return.Results[nres-1])
+						switch {
+						case kit.IsNilIdent(h.Info(), last):
+						case func() bool {
+							cl, isCall := last.(*ast.CallExpr)
+							return isCall && kit.CallIs(h.Info(), cl, "errors.New", "fmt.Errorf")
+						}():
+							kind = "err"
+						default:
+							kind = "both"
+							exact, why = false, fmt.Sprintf("`%s` returns an error of unknown nil-ness", h.Str(e.Return))
+						}
+					}
+					if kind != "err" {
+						domOK = kit.LenDomUnion(domOK, set)
+						if rel {
+							if offSet && off != o2 {
+								offRel = false
+							}
+							off, offSet = o2, true
+						} else {
+							offRel = false
+						}
+					}
+					if kind != "ok" {
+						domErr = kit.LenDomUnion(domErr, set)
+					}
+				}
+				if domOK == "" {
+					fail("helper %s has no successful exit for this call (%s)", h.Name, strings.Join(bound, ", "))
+					continue
+				}
+				// the caller's variable
+				par := c.P.Parent(f.File, call)
+				as, _ := par.(*ast.AssignStmt)
+				if as == nil || len(as.Rhs) != 1 || len(as.Lhs) != nres {
+					fail("the results of %s are not assigned to variables here", h.Name)
+					continue
+				}
+				x := kit.ObjOf(info, as.Lhs[pos])
+				if x == nil {
+					r.Ob(f, call, role+" (call)", obl).OK("the returned slice is discarded")
+					continue
+				}
+				lf := &kit.LenFlow{F: f, X: x, Def: as, DefDom: kit.LenDomUnion(domOK, domErr), Init: kit.NewS()}
+				if hasErr {
+					ev := kit.ObjOf(info, as.Lhs[nres-1])
+					cnt := 0
+					if ev != nil {
+						ast.Inspect(f.Root().Body, func(z ast.Node) bool {
+							if a2, ok := z.(*ast.AssignStmt); ok {
+								for _, l := range a2.Lhs {
+									if kit.ObjOf(info, l) == ev {
+										cnt++
+									}
+								}
+							}
+							return true
+						})
+					}
+					if ev != nil && cnt == 1 {
+						lf.ErrVar, lf.DomOK, lf.DomErr = ev, domOK, domErr
+						if domErr == "" {
+							lf.DomErr = "0:0" // unreachable error edge
+						}
+					} else {
+						exact, why = false, "the error result of the helper is discarded or its variable is reused"
+					}
+				}
+				if !exact {
+					lf.Init = lf.Init.Set("u", "1")
+				}
+				if offSet && offRel {
+					o := off
+					lf.Describe = func(l int64) string {
+						return fmt.Sprintf(" (the slice returned by %s(%s) for a subject with %d token(s))", h.Name, strings.Join(bound, ", "), l-o)
+					}
+				}
+				lf.Run()
+				keys := c12SiteKeys(f, role, lf.Sites)
+				if len(lf.Sites) == 0 {
+					r.Ob(f, call, role+" (call)", obl).OK("the returned slice is never indexed in %s", f.Name)
+					continue
+				}
+				for _, st := range lf.Sites {
+					o := r.Ob(f, st.Expr, keys[st], obl)
+					switch st.Verdict {
+					case "ok":
+						o.OK("%s: %s; helper %s(%s) returns lengths {%s} with a nil error", f.Str(st.Expr), st.By, h.Name, strings.Join(bound, ", "), domOK)
+					case "violation":
+						o.Violation("call %s at %s: helper %s returns a slice of length {%s} with a nil error, and %s", f.Str(call), f.At(call), h.Name, domOK, st.Msg)
+					default:
+						msg := st.Msg
+						if !exact {
+							msg += " (" + why + ")"
+						}
+						o.Undecided("%s", msg)
+					}
+				}
+			}
+		}
+	}
+	return n
 }
